@@ -125,8 +125,11 @@ def _loop_returns_to_breaks(body, tmp):
         return None
     i = idx[0]
     loop, pre, tail = body[i], body[:i], body[i + 1:]
-    if loop.orelse or any(isinstance(x, ast.Return) for st in pre for x in ast.walk(st)):
+    if loop.orelse:
         return None
+    if any(isinstance(x, ast.Return) for st in pre for x in ast.walk(st)) and \
+            _returns_outside_guards(list(pre) + [ast.Return(value=ast.Constant(value=None))]):
+        return None         # (guard clauses before the loop are fine: the structured rewriting takes care of them)
     trets = [x for st in tail for x in ast.walk(st) if isinstance(x, ast.Return)]
     if trets and not (len(trets) == 1 and tail[-1] is trets[0]):
         return None
@@ -623,8 +626,10 @@ class Inliner(object):
             # (off unless VERIF_LOOP_INLINE is set: the rules read a helper that searches with a loop better as a call than as
             # a loop-with-temporary spliced into the caller - see DESIGN.md section 24, C03-rf4p1)
             import os
-            if not os.environ.get('VERIF_LOOP_INLINE'):
-                return None
+            as_test = isinstance(st, ast.If) and (st.test is call or (isinstance(st.test, ast.UnaryOp) and isinstance(st.test.op, ast.Not)
+                                                                    and st.test.operand is call))
+            if not os.environ.get('VERIF_LOOP_INLINE') and not as_test:
+                return None     # (a predicate used directly as an `if` test is spliced: its outcomes select the arms of that if)
             alt = _loop_returns_to_breaks(copy.deepcopy(body), '_ret_%s_%d' % (hnode.name.strip('_'), getattr(call, 'lineno', 0)))
             if alt is None or _returns_outside_guards(alt):
                 return None
